@@ -597,3 +597,12 @@ Theorem C18_unitvector_null_gradient_at_singular_geometries : forall (k w : R) (
      Some (V3 (- (1 / 2) * k / (w * w) * 0, - (1 / 2) * k / (w * w) * 0, - (1 / 2) * k / (w * w) * 0))).
 Proof. intros k w a b. split; [apply uv_grad_singular | intros Ha; apply (hr_unit_singular_force k w a Ha)]. Qed.
 Print Assumptions C18_unitvector_null_gradient_at_singular_geometries.
+
+(* run-time modifications of the components (modifycvcs): after EVERY history the variable is periodic exactly when every component
+   IN FORCE is periodic with the common period, coefficient +-1, exponent 1; the number of components never changes *)
+Theorem C18_sum_decision_follows_history : forall (l : list scomp) (mods : list (nat * option R * R)) (P c : R),
+  (sum_periodic Rops (sum_history l mods) = Some (P, c) <->
+   (exists k0 r, sum_history l mods = k0 :: r /\ c = sc_wc k0) /\ List.Forall (sc_ok P) (sum_history l mods)) /\
+  length (sum_history l mods) = length l.
+Proof. intros l mods P c. split; [apply sum_history_decision | apply sum_history_length]. Qed.
+Print Assumptions C18_sum_decision_follows_history.
